@@ -30,7 +30,7 @@ ASSUMPTIONS = ['float64; tolerance 1e-11 * gain * max|g|', 'torch native autogra
                'sizes and J bounded']
 TIMEOUT = {'quick': 900, 'thorough': 3300}
 WORKER_BUDGET = {'quick': 600, 'thorough': 2700}
-MIN_HELD = {'quick': 300, 'thorough': 1500}
+MIN_HELD = {'quick': 300, 'thorough': 88609}
 EXT = ('symmetric', 'reflect', 'periodic')
 KF_FWD_EXT = 'forward-backward-omits-adjoint-of-boundary-extension'
 KF_INV_EXT = 'inverse-backward-applies-boundary-extension'
